@@ -33,7 +33,11 @@ type solveOut struct {
 }
 
 func runSolver(sp solverSpec, script string, timeoutS int) solveOut {
-	ctx, cancel := context.WithTimeout(context.Background(), time.Duration(timeoutS+2)*time.Second)
+	return runSolverCtx(context.Background(), sp, script, timeoutS)
+}
+
+func runSolverCtx(parent context.Context, sp solverSpec, script string, timeoutS int) solveOut {
+	ctx, cancel := context.WithTimeout(parent, time.Duration(timeoutS+2)*time.Second)
 	defer cancel()
 	argv := sp.argv(timeoutS)
 	cmd := exec.CommandContext(ctx, argv[0], argv[1:]...)
@@ -70,9 +74,11 @@ func solveScript(script string, quickS, fullS int) solveOut {
 	total := r.secs
 	// race all back ends at the full timeout
 	ch := make(chan solveOut, len(solvers))
+	rctx, rcancel := context.WithCancel(context.Background())
+	defer rcancel()
 	for _, sp := range solvers {
 		sp := sp
-		go func() { ch <- runSolver(sp, script, fullS) }()
+		go func() { ch <- runSolverCtx(rctx, sp, script, fullS) }()
 	}
 	var best solveOut
 	best = r
@@ -80,9 +86,9 @@ func solveScript(script string, quickS, fullS int) solveOut {
 	for range solvers {
 		o := <-ch
 		if o.status == "unsat" || o.status == "sat" {
-			if best.status != "unsat" && best.status != "sat" {
-				best = o
-			}
+			best = o
+			rcancel() // first definitive answer wins; stop the others
+			break
 		} else if o.status == "error" {
 			errOut += o.backend + ": " + firstLines(o.out, 3) + "\n"
 		}
@@ -103,6 +109,64 @@ func firstLines(s string, n int) string {
 }
 
 var reGetValue = regexp.MustCompile(`\(\s*([^\s()]+)\s+((?:\(_ bv\d+ \d+\))|(?:#x[0-9a-fA-F]+)|(?:#b[01]+)|(?:\(- \d+\))|(?:\d+)|true|false|\(fp [^)]*\)|\(_ [^)]*\))\s*\)`)
+
+// parseModelValues parses a (get-value ...) answer positionally: the i-th answered pair belongs to asked[i].
+func parseModelValues(out string, asked []ModelVar) map[string]string {
+	m := map[string]string{}
+	i := strings.Index(out, "((")
+	if i < 0 {
+		return m
+	}
+	s := out[i+1:]
+	// split top-level pairs
+	depth, start, k := 0, -1, 0
+	for j := 0; j < len(s) && k < len(asked); j++ {
+		switch s[j] {
+		case '(':
+			if depth == 0 {
+				start = j
+			}
+			depth++
+		case ')':
+			depth--
+			if depth == 0 && start >= 0 {
+				pair := s[start+1 : j]
+				// value = last balanced s-expression or atom of the pair
+				val := lastSexp(pair)
+				m[asked[k].Label] = val
+				k++
+				start = -1
+			}
+			if depth < 0 {
+				return m
+			}
+		}
+	}
+	return m
+}
+
+func lastSexp(s string) string {
+	s = strings.TrimSpace(s)
+	if strings.HasSuffix(s, ")") {
+		depth := 0
+		for j := len(s) - 1; j >= 0; j-- {
+			switch s[j] {
+			case ')':
+				depth++
+			case '(':
+				depth--
+				if depth == 0 {
+					return s[j:]
+				}
+			}
+		}
+		return s
+	}
+	if j := strings.LastIndexAny(s, " \t\n"); j >= 0 {
+		return s[j+1:]
+	}
+	return s
+}
 
 func parseModel(out string) map[string]string {
 	m := map[string]string{}
@@ -167,32 +231,61 @@ func solveObs(r *FuncResult, obs []*Oblig, cfg solveCfg, quiet bool) {
 }
 
 func solveOne(r *FuncResult, ob *Oblig, cfg solveCfg) {
-	var names []string
-	for _, p := range r.Params {
-		if _, ok := r.Ctx.decls[p.Term.T]; ok && !isArr(p.Term.S) {
-			names = append(names, p.Term.T)
-		}
-	}
 	var asserts []Term
 	if ob.Cover {
 		asserts = []Term{ob.Hyp}
 	} else {
 		asserts = []Term{ob.Hyp, mkNot(ob.Goal)}
 	}
-	// parameters must be part of the script for get-value: add harmless mentions
-	script := r.Ctx.Script("", asserts, nil)
-	// only request values of symbols that are declared in the sliced script
-	var avail []string
-	for _, n := range names {
-		if strings.Contains(script, "(declare-const "+n+" ") {
-			avail = append(avail, n)
+	var asked []ModelVar
+	addModel := func(script string) string {
+		asked = nil
+		var terms []string
+		for _, p := range r.Params {
+			ok := true
+			for _, n := range p.Needs {
+				if !strings.Contains(script, "(declare-const "+n+" ") && !strings.Contains(script, "(define-fun "+n+" ") {
+					ok = false
+					break
+				}
+			}
+			if ok && !isArr(p.Term.S) {
+				asked = append(asked, p)
+				terms = append(terms, p.Term.T)
+			}
 		}
+		if len(terms) > 0 {
+			script += "(get-value (" + strings.Join(terms, " ") + "))\n"
+		}
+		return script
 	}
-	if len(avail) > 0 {
-		script += "(get-value (" + strings.Join(avail, " ") + "))\n"
-	}
+	script, hasQ := r.Ctx.Script("", asserts, false)
+	script = addModel(script)
 	ob.Script = script
-	o := solveScript(script, cfg.quickS, cfg.fullS)
+	var o solveOut
+	if hasQ {
+		// first: sound quantifier-free weakening (instantiation + skolemisation)
+		iscript, _ := r.Ctx.Script("", asserts, true)
+		iscript = addModel(iscript)
+		io := solveScript(iscript, cfg.quickS, cfg.fullS)
+		if io.status == "unsat" {
+			io.backend += "/inst"
+			o = io
+			ob.Script = iscript
+		} else {
+			o = solveScript(script, cfg.quickS, cfg.fullS)
+			if o.status != "unsat" && io.status == "sat" && !ob.Cover {
+				// keep the candidate model of the weakened query (may be spurious; replay decides)
+				o.status = "sat"
+				o.out = io.out
+				o.backend = io.backend + "/inst-candidate"
+				ob.Script = iscript
+			}
+			o.secs += io.secs
+		}
+	} else {
+		o = solveScript(script, cfg.quickS, cfg.fullS)
+	}
 	ob.Backend = o.backend
 	ob.Time = o.secs
 	ob.Output = o.out
@@ -212,13 +305,7 @@ func solveOne(r *FuncResult, ob *Oblig, cfg solveCfg) {
 		ob.Status = "discharged"
 	case "sat":
 		ob.Status = "failed-sat"
-		mv := parseModel(o.out)
-		ob.Model = map[string]string{}
-		for _, p := range r.Params {
-			if v, ok := mv[p.Term.T]; ok {
-				ob.Model[p.Label] = v
-			}
-		}
+		ob.Model = parseModelValues(o.out, asked)
 	default:
 		ob.Status = "failed-unknown"
 	}
